@@ -1,4 +1,5 @@
 import GGV.Lemmas.Grammar
+import GGV.Lemmas.GrammarList
 /-!
 # C15 — The annotation grammar is exactly the documented one
 
@@ -209,5 +210,101 @@ example : parseImplements (ascii "// @implements &io.Reader") = some (true, asci
 example : parseImplements (ascii "// @implements Reader text") = some (false, [], ascii "Reader") := by decide
 example : parseImplements (ascii "// @implements io.Reader.X") = none := by decide
 example : parseImplements (ascii "// @implements") = none := by decide
+
+end GGV.Props.C15
+
+/-! ## list arguments: completeness
+
+`keyword_exact_list` and `list_names_valid` say that what is recognised has the documented shape; the
+theorems below are the converse: every line of the documented shape is recognised, with exactly its items in order. -/
+namespace GGV.Props.C15
+open GGV.Model GGV.Model.Grammar
+
+/-- after the last item the line may end, carry one trailing comma, and then blank-separated free text -/
+theorem acceptAfter_iff (t : Bytes) :
+    acceptAfter t = true ↔ TailOK t ∨ ∃ w r, AllWs w ∧ t = w ++ 44 :: r ∧ TailOK r := by
+  unfold acceptAfter
+  rw [Bool.or_eq_true, tailOk_iff]
+  constructor
+  · rintro (h | h)
+    · exact Or.inl h
+    · split at h
+      · rename_i r e
+        obtain ⟨w, hw, hs, _⟩ := dropWs_spec t
+        exact Or.inr ⟨w, r, hw, by rw [← e]; exact hs, (tailOk_iff r).1 h⟩
+      · simp at h
+  · rintro (h | ⟨w, r, hw, rfl, hr⟩)
+    · exact Or.inl h
+    · right
+      rw [dropWs_append_of_ws w _ hw, dropWs_of_nonws_head 44 r (by decide)]
+      exact (tailOk_iff r).2 hr
+
+/-- **list completeness**: blanks `//` blanks `@K` blanks `ID₀ (blanks , blanks IDᵢ)*` followed by a text after which the
+    list does not continue (`parseSep` fails) and the line may finish (`acceptAfter_iff`) is recognised with exactly
+    the items `ID₀ … IDₙ`, in order — for every identifier class in which blanks and commas are not identifier bytes -/
+theorem list_complete (kw : Bytes) (hkw : IsKw kw) (k : IdClass) (hk : SepFree k)
+    (w1 w2 ws id0 trail : Bytes) (more : List (Bytes × Bytes × Bytes))
+    (h1 : AllWs w1) (h2 : AllWs w2) (hws : AllWs ws) (hne : ws ≠ [])
+    (hid : ValidId k id0) (hmore : WfItems k more)
+    (hacc : acceptAfter trail = true) (hstop : parseSep k trail = none) :
+    recogniseList kw k (w1 ++ slashes ++ w2 ++ kw ++ (ws ++ (id0 ++ (sepText more ++ trail))))
+      = some (id0 :: more.map (·.2.2)) := by
+  have hlead := (lead_iff kw _ (ws ++ (id0 ++ (sepText more ++ trail))) hkw).2 ⟨w1, w2, h1, h2, rfl⟩
+  unfold recogniseList
+  rw [hlead]
+  cases ws with
+  | nil => exact absurd rfl hne
+  | cons b t =>
+    have hb : isWs b = true := hws b (by simp)
+    simp only [List.cons_append, hb, Bool.not_true, Bool.false_eq_true, if_false]
+    have hd : dropWs (b :: (t ++ (id0 ++ (sepText more ++ trail)))) = id0 ++ (sepText more ++ trail) := by
+      have := dropWs_append_of_ws (b :: t) (id0 ++ (sepText more ++ trail)) hws
+      rw [List.cons_append] at this
+      rw [this, validId_head_nonws k hk id0 _ hid]
+    rw [hd]
+    have hst : Stops k (sepText more ++ trail) :=
+      sepText_append_stops k hk more trail hmore (acceptAfter_stops k hk trail hacc)
+    rw [parseId_append k id0 _ hid hst]
+    simp only
+    rw [longestAccepted_chain k hk trail hacc hstop more id0 _ hmore]
+    have := sepText_length more
+    simp only [List.length_append]
+    omega
+
+theorem constructor_complete (w1 w2 ws id0 trail : Bytes) (more : List (Bytes × Bytes × Bytes))
+    (h1 : AllWs w1) (h2 : AllWs w2) (hws : AllWs ws) (hne : ws ≠ [])
+    (hid : ValidId goIdent id0) (hmore : WfItems goIdent more)
+    (hacc : acceptAfter trail = true) (hstop : parseSep goIdent trail = none) :
+    parseConstructor (w1 ++ slashes ++ w2 ++ kwConstructor ++ (ws ++ (id0 ++ (sepText more ++ trail))))
+      = some (id0 :: more.map (·.2.2)) := by
+  unfold parseConstructor
+  rw [list_complete kwConstructor kw_constructor goIdent sepFree_goIdent w1 w2 ws id0 trail more h1 h2 hws hne hid hmore hacc hstop]
+
+theorem packageonly_complete (w1 w2 ws id0 trail : Bytes) (more : List (Bytes × Bytes × Bytes))
+    (h1 : AllWs w1) (h2 : AllWs w2) (hws : AllWs ws) (hne : ws ≠ [])
+    (hid : ValidId pkgPath id0) (hmore : WfItems pkgPath more)
+    (hacc : acceptAfter trail = true) (hstop : parseSep pkgPath trail = none) :
+    parsePackageOnly (w1 ++ slashes ++ w2 ++ kwPackageonly ++ (ws ++ (id0 ++ (sepText more ++ trail))))
+      = some (id0 :: more.map (·.2.2)) :=
+  list_complete kwPackageonly kw_packageonly pkgPath sepFree_pkgPath w1 w2 ws id0 trail more h1 h2 hws hne hid hmore hacc hstop
+
+theorem ignore_complete (w1 w2 ws id0 trail : Bytes) (more : List (Bytes × Bytes × Bytes))
+    (h1 : AllWs w1) (h2 : AllWs w2) (hws : AllWs ws) (hne : ws ≠ [])
+    (hid : ValidId codeTok id0) (hmore : WfItems codeTok more)
+    (hacc : acceptAfter trail = true) (hstop : parseSep codeTok trail = none) :
+    parseIgnore (w1 ++ slashes ++ w2 ++ kwIgnore ++ (ws ++ (id0 ++ (sepText more ++ trail))))
+      = some ((id0 :: more.map (·.2.2)).map (·.map upperAscii)) := by
+  unfold parseIgnore
+  rw [list_complete kwIgnore kw_ignore codeTok sepFree_codeTok w1 w2 ws id0 trail more h1 h2 hws hne hid hmore hacc hstop]
+
+/-- non-vacuity: these lines have the documented shape and yield the three names … -/
+example : parseConstructor (ascii "// @constructor New, Make ,Build and more") = some [ascii "New", ascii "Make", ascii "Build"] := by
+  decide
+example : parseConstructor (ascii "// @constructor New, Make ,Build, - see docs") = some [ascii "New", ascii "Make", ascii "Build"] := by
+  decide
+/-- … whereas here the list continues (`parseSep` succeeds on `, see docs`): the regex takes `see` as a fourth name -/
+example : parseConstructor (ascii "// @constructor New, Make ,Build, see docs")
+    = some [ascii "New", ascii "Make", ascii "Build", ascii "see"] := by
+  decide
 
 end GGV.Props.C15
